@@ -168,6 +168,10 @@ class Application(object):
                 ctx.in_object = [ctx.in_object]
             elif ctx.descriptor.body_style is BODY_STYLE_EMPTY:
                 ctx.in_object = []
+            elif ctx.in_object is None:
+                # a nil message: every member is missing
+                ctx.in_object = [None] * \
+                                    len(ctx.descriptor.in_message._type_info)
 
             # call user method
             ctx.out_object = self.call_wrapper(ctx)
